@@ -169,7 +169,7 @@ let rec p_value (c : cursor) : value =
 
 let p_field c = let f = take_until c (fun ch -> ch = '.') in eat c '.'; f
 
-let p_action (c : cursor) : action =
+let rec p_action (c : cursor) : action =
   let k = peek c in c.pos <- c.pos + 1;
   match k with
   | 'P' -> AcParse (str_of_hex (p_field c))
@@ -182,6 +182,8 @@ let p_action (c : cursor) : action =
     AcRegI (str_of_hex nm, z_of_hex pr, se = "1", ri = "1", n_of_int (int_of_string h))
   | 'K' -> AcLock (n_of_int (int_of_string (p_field c)))
   | 'Z' -> let _ = p_field c in AcParse []   (* a handler that takes time: timing only; in the sequential model a parse of the empty program *)
+  | 'Y' -> let _ = p_field c in p_action c   (* an action performed while the handler holds the guard of a context's handle: in the
+                                               sequential model (the scenarios use it with an action on ANOTHER context) the action itself *)
   | _ -> failwith "bad action"
 
 let rec nat_of_int i = if i <= 0 then O else S (nat_of_int (i - 1))
